@@ -39,13 +39,9 @@ impl TlsHandshaker {
         let stream = match connector.connect(domain, stream) {
             Ok(stream) => stream,
             Err(HandshakeError::Failure(err)) => return Err(err.into()),
-            Err(HandshakeError::WouldBlock(mut stream)) => loop {
-                match stream.handshake() {
-                    Ok(stream) => break stream,
-                    Err(HandshakeError::Failure(err)) => return Err(err.into()),
-                    Err(HandshakeError::WouldBlock(mid_stream)) => stream = mid_stream,
-                }
-            },
+            // The stream is a blocking one: `WouldBlock` means that its read timeout expired while the
+            // peer was silent. Resuming the handshake would wait for such a peer for ever.
+            Err(HandshakeError::WouldBlock(_)) => return Err(io::Error::from(io::ErrorKind::WouldBlock).into()),
         };
         Ok(TlsStream { inner: stream })
     }
